@@ -8,9 +8,12 @@ RULE = ('history generator of C01 with allocation trees of depth up to 4 per par
         'of the partition\'s instances, final_rank non-decreasing, per-allocation order (-priority, running first, '
         'arrival), priority-0 last within a rank, rank in {alloc rank, boosted}, cumulative demand strictly within '
         'reservation => boosted, cumulative demand before already >= reservation in a dimension => not boosted, '
-        'beyond cap => unplaced rank and not placed. Non-trivial: a cycle whose queue has >= 2 distinct ranks and '
+        'beyond cap => unplaced rank and not placed. Every 8th case runs the real Master.run_loop() on two threads '
+        '(vf/master/realloop.py, see C09) with priorities changed by the operator at the joints of the start-up sequence, '
+        'while the master is busy with a batch of events, and across a second master: at idle the priority the master '
+        'queues an instance with is the one its manifest carries. Non-trivial: a cycle whose queue has >= 2 distinct ranks and '
         'both running and pending instances.')
-REQUIRED_REACH = {'*': ['evictions']}
+REQUIRED_REACH = {'*': ['evictions', 'real_loop_cases', 'real_loop_second_master_started']}
 
 
 def _tweak(pf, rng):
